@@ -328,6 +328,7 @@ def oracle_all(case):
             if o["new_hist"] or o["calls"]:
                 fail(f"C20:skipped-batch-released:{impl}", f"step {k}: a skipped physical batch drew noise or was accounted", step=k)
             continue
+        chunk_skipped = pend_n != B      # logical step made of several physical batches: summed spans all of them
         n_tot, c_lo, c_hi = pend_n, pend_cnt_lo, pend_cnt_hi
         n_last, l_lo, l_hi = B, cnt_lo, cnt_hi
         pend_n = pend_cnt_lo = pend_cnt_hi = 0
@@ -342,6 +343,16 @@ def oracle_all(case):
                 fail(f"C20:grad-noise-std:{impl}", f"step {k}: gradient noise std {o['gradStd']} ≠ (σ⁻²−(2σ_b)⁻²)^(−1/2)·C = {want}", step=k)
         elif o["gradStd"]:
             fail(f"C20:grad-noise-std:{impl}", f"step {k}: σ=0 but gradient noise std {o['gradStd']}", step=k)
+        # the clipped sum must be clipped to the bound the gradient noise is calibrated to
+        if "summed" in o and "gs" in o and not chunk_skipped:
+            Cn = o["gradStd"][0] / sigma_delta(c["sigma"], sb_expected) if (c["sigma"] > 0 and len(o["gradStd"]) == 1) else o["clipUsed"]
+            gsn = o["gs"].numpy()
+            fac = np.minimum(1.0, Cn / (norms + EPS)) if impl == "ada" else np.where(norms <= Cn, 1.0, Cn / np.where(norms > 0, norms, 1.0))
+            want_sum = (fac[:, None] * gsn).sum(axis=0) if B else np.zeros(o["summed"].numel())
+            if not vec_close(want_sum, o["summed"].numpy(), 1e-9):
+                fail(f"C20:clip-noise-bound-mismatch:{impl}",
+                     f"step {k}: released clipped sum {o['summed'].tolist()} is not Σ min(1, C/normᵢ)·gᵢ for the bound C={Cn!r} the gradient noise std {o['gradStd']} is calibrated to",
+                     step=k)
         # bound used for clipping: previous bound (AdaClip) / new bound (ghost)
         want_used = C if impl == "ada" else o["newC"]
         if not core.close(o["clipUsed"], want_used, TOL):
@@ -353,7 +364,9 @@ def oracle_all(case):
             gm = o["gradStd"][0] / o["clipUsed"]
             nominal = (gm ** -2 + (2 * o["countStd"][0]) ** -2) ** -0.5
             if o["recorded"][0] > nominal * (1 + 1e-9):
-                fail(f"C20:accountant-charged-inflated:{'adaclip' if impl == 'ada' else 'ghost'}",
+                # D9 is precisely "the gradient-noise multiplier is what gets recorded"; any other excess is a different failure
+                d9 = core.close(o["recorded"][0], gm, TOL)
+                fail((f"C20:accountant-charged-inflated:{'adaclip' if impl == 'ada' else 'ghost'}" if d9 else f"C20:accountant-charged-above-nominal:{impl}"),
                      f"step {k}: accountant charged noise_multiplier {o['recorded'][0]!r} > nominal σ {nominal!r} of the combined release (gradient multiplier {gm!r}, count std {o['countStd'][0]!r})",
                      step=k, recorded=o["recorded"][0], nominal=nominal)
         # (a–c) the update rule
@@ -362,7 +375,10 @@ def oracle_all(case):
                 fail(f"C20:update-rule:{impl}", f"step {k}: empty logical batch moved the bound {C} → {o['newC']}", step=k)
         else:
             def rule(cnt, n):
-                v = C * math.exp(-c["eta"] * ((cnt + st["z"]) / n - c["gamma"]))
+                if n == 0:
+                    return C
+                e = -c["eta"] * ((cnt + st["z"]) / n - c["gamma"])
+                v = C * math.exp(e) if e < 700 else float("inf")
                 return min(max(v, lo), hi)
 
             ok_full = any(core.close(o["newC"], rule(cc, n_tot), TOL) for cc in range(c_lo, c_hi + 1))
@@ -437,10 +453,12 @@ def nonint_oracle(case, rng_seed):
 
 
 def oracle_first(case, known=()):
+    """for `ctx.mismatch`: the first property failure at `case` that is NOT a listed known finding
+    (a correspondence break that only reproduces known findings stays a break: no-failing-input-found)"""
     fs = oracle_all(case)
-    fs += nonint_oracle(case, 7) if not fs or all(f[0] in known for f in fs) else []
+    fs += nonint_oracle(case, 7)
     unknown = [f for f in fs if f[0] not in known]
-    return (unknown or fs or [None])[0]
+    return (unknown or [None])[0]
 
 
 # ----------------------------------------------------------------------------- witnesses / variant detection
@@ -454,17 +472,27 @@ W_ACCUM = dict(W_ADA, steps=[{"norms": [0.5, 0.1, 0.2], "z": 0.0, "style": "basi
 
 
 def detect_variants(ctx):
+    """Replay the Lean witnesses on the real code to learn which behaviour this tree implements.
+    Anything unexpected (construction refused, step raised, other value) is left as `asCoded`: the
+    correspondence then breaks and reports it."""
+    def first(case, idx=0):
+        try:
+            res = run_real(case)
+            return res[1][idx] if res[0] == "ok" and len(res[1]) > idx else {"kind": "none"}
+        except Exception as e:  # noqa: BLE001
+            return {"kind": "crash:" + type(e).__name__}
+
     v = {}
-    o = run_real(W_ADA)[1][0]
+    o = first(W_ADA)
     rec = o["recorded"][0] if o.get("recorded") else float("nan")
     v["ada-acct"] = "repaired" if core.close(rec, 1.0, 1e-9) else "asCoded"
-    o = run_real(W_GHOST)[1][0]
+    o = first(W_GHOST)
     rec = o["recorded"][0] if o.get("recorded") else float("nan")
     v["ghost-acct"] = "repaired" if core.close(rec, 1.0, 1e-9) else "asCoded"
-    o = run_real(W_EMPTY)[1][0]
-    v["ada-empty"] = "asCoded" if o["kind"] == "err:empty-batch" else "repaired"
-    outs = run_real(W_ACCUM)[1]
-    v["ada-accum"] = "repaired" if (len(outs) == 2 and outs[1].get("sampleSize") == 4) else "asCoded"
+    o = first(W_EMPTY)
+    v["ada-empty"] = "repaired" if o["kind"] == "rel" else "asCoded"
+    o = first(W_ACCUM, 1)
+    v["ada-accum"] = "repaired" if o.get("sampleSize") == 4 else "asCoded"
     return v
 
 
